@@ -106,3 +106,127 @@ def replay_all(ctx, pid, prefix, sims, seed):
                                f'{r["script"]}')
     ctx.traces_validated(total)
     return total
+
+
+# ---------------------------------------------------------------------------
+# code -> spec: recorded executions validated against Channel.tla by TLC
+# ---------------------------------------------------------------------------
+
+TRACE_DIAG = ['DiagSwin', 'DiagSbuf', 'DiagSstate', 'DiagRwin', 'DiagRbuf',
+              'DiagPaused', 'DiagRstate', 'DiagErr', 'DiagDlen']
+
+
+def trace_consts(initwin, pktsize):
+    return dict(Chans='{1, 2}', DTs='{0, 1}', InitWin=initwin,
+                PktSize=pktsize, MaxUnits=1000000, MaxWrite=1000000,
+                MaxPause=1000000, Rogue=0, AccountBuffered='TRUE')
+
+
+def trace_validation(ctx, pid, quick):
+    """Naturally scheduled sessions (writer tasks, reader tasks pausing and
+    resuming, sessions pausing themselves inside data_received, random
+    segmentation and stalls) are recorded and TLC decides whether each
+    execution is a behaviour of Channel.tla; the C07/C08 invariants are
+    evaluated in every state.  Corrupted copies and a spec with the wrong
+    window must be rejected."""
+    import copy
+    from harness.drivers import channel
+    configs = [(5, 3), (1, 1), (4, 4), (16, 5)] if quick else \
+        [(5, 3), (1, 1), (2, 1), (3, 2), (4, 4), (16, 5), (64, 32), (7, 9),
+         (128, 16)]
+    per = 12 if quick else 150
+    modes = ['mixed', 'whole', 'tiny', 'mixed nopi', 'stall whole',
+             'tiny nopause']
+    good = []
+    total = matched = 0
+    for ci, (iw, pk) in enumerate(configs):
+        recs = []
+        for i in range(per):
+            seed = ctx.seed * 7919 + ci * 1000 + i
+            chans = [1, 2] if i % 3 else [1]
+            mode = modes[i % len(modes)]
+            args = dict(seed=seed, chans=chans, initwin=iw, pktsize=pk,
+                        nwrites=4 + i % 4, mode=mode)
+            r = channel.record_natural(**args)
+            r['args'] = args
+            recs.append(r)
+            ctx.count(('trace', iw, pk, len(chans), mode, i),
+                      nontrivial=r['npause'] > 0 and r['nadj'] > 0)
+            if r['l1']:
+                ctx.violation({'module': 'ChannelTrace', 'window': iw,
+                               'pktsize': pk, 'clauses': sorted(
+                                   {c.split(':')[0] for c in r['l1']})},
+                              '; '.join(r['l1'][:3]),
+                              replay={'kind': 'natural', **args})
+            if r['stray']:
+                ctx.divergence(f'natural session {args}: packets outside '
+                               f'any step: {r["stray"][:3]}')
+            if r['loop_exceptions']:
+                ctx.divergence(f'natural session {args}: loop exception '
+                               f'{r["loop_exceptions"][0]}')
+        res, verdicts = tlc.validate_traces(
+            SPEC, 'ChannelTrace', [r['trace'] for r in recs],
+            f'{pid.lower()}_tr_{iw}_{pk}', constants=trace_consts(iw, pk),
+            diag=TRACE_DIAG, progress='TraceProgress', report='TraceReport')
+        ctx.add_tlc(f'ChannelTrace window={iw} packet={pk}', res)
+        if res.violation:
+            ctx.violation({'module': 'ChannelTrace', 'window': iw,
+                           'pktsize': pk, 'invariant': res.violation},
+                          f'invariant {res.violation} fails on a recorded '
+                          f'execution (window {iw}, packet {pk}): ' +
+                          res.output[-1200:],
+                          replay={'kind': 'natural-batch',
+                                  'args': [r['args'] for r in recs]})
+            continue
+        if res.error:
+            raise MachineryError(f'ChannelTrace: {res.error}\n' +
+                                 res.output[-3000:])
+        for i, v in sorted(verdicts.items()):
+            total += 1
+            matched += v['matched']
+            if not v['accepted']:
+                ctx.divergence(f'recorded execution {recs[i]["args"]} is not '
+                               f'a behaviour of Channel.tla: '
+                               f'{v["diagnosis"]}')
+            elif ci == 0 and len(good) < 3 and recs[i]['nadj'] > 1:
+                good.append(recs[i]['trace'])
+    ctx.coverage['recorded_traces_validated_by_tlc'] = \
+        ctx.coverage.get('recorded_traces_validated_by_tlc', 0) + total
+    ctx.coverage['recorded_events_matched'] = \
+        ctx.coverage.get('recorded_events_matched', 0) + matched
+    ctx.traces_validated(total)
+    # ---- binding controls ----
+    if len(good) < 3 and (ctx.violations or ctx.divergences):
+        ctx.notes.append('binding controls skipped: recorded traces were '
+                         'rejected (see violations / divergences)')
+        return
+    ctx.require(len(good) == 3, 'no recorded trace with window adjusts')
+    iw, pk = configs[0]
+    bad = []
+    t = copy.deepcopy(good[0])
+    i = [k for k, e in enumerate(t['ev']) if e['e'] == 'dfwd'][1]
+    t['ev'][i]['rwin'] += 1
+    bad.append(('rwin corrupted', t))
+    t = copy.deepcopy(good[1])
+    i = [k for k, e in enumerate(t['ev']) if e['e'] == 'dbwd'][0]
+    del t['ev'][i]
+    bad.append(('window adjust receipt removed', t))
+    t = copy.deepcopy(good[2])
+    i = [k for k, e in enumerate(t['ev']) if e['e'] == 'write' and
+         e['out']][0]
+    t['ev'][i]['out'][0][2] += 1
+    bad.append(('emitted packet one byte longer', t))
+    res, verdicts = tlc.validate_traces(
+        SPEC, 'ChannelTrace', [b[1] for b in bad], f'{pid.lower()}_tr_neg',
+        constants=trace_consts(iw, pk), progress='TraceProgress',
+        report='TraceReport')
+    for i, (what, _) in enumerate(bad):
+        ctx.require(i in verdicts and not verdicts[i]['accepted'],
+                    f'binding control "{what}" was accepted by ChannelTrace')
+    res, verdicts = tlc.validate_traces(
+        SPEC, 'ChannelTrace', good, f'{pid.lower()}_tr_sens',
+        constants=trace_consts(iw + 1, pk), invariants=(),
+        progress='TraceProgress', report='TraceReport')
+    ctx.require(verdicts and not any(v['accepted'] for v in verdicts.values()),
+                'a spec with the wrong initial window accepted a recorded '
+                'trace')
